@@ -215,9 +215,9 @@ CHECKS['C16'] = (
     'Lean 4 theorems (decide) over the argparse tables, handler map, handler attribute reads, API keyword wiring and normalisers regenerated from the CLI '
     'sources + in-process runs of the bse entry point compared with direct API calls',
     'Proof (over the regenerated tables): cli_handlers_total, cli_dests_defined, cli_forwards_all_get_basis (all 15 parameters of get_basis, once each), '
-    'cli_get_basis_sources, cli_forwards_all_get_refs, cli_defaults_agree (an absent option passes the API default), cli_normalisers. Validation: 300+ '
+    'cli_get_basis_sources, cli_forwards_all_get_refs, cli_defaults_agree (an absent option passes the API default), cli_normalisers; cli_returns_the_api_value (the handlers of get-basis/-refs/-notes/-family/-family-notes/-data-dir are `return api.f(...)`), cli_calls_forward (for every other data-returning sub-command the library call and, by parameter name of the callee, the option each parameter receives), cli_data_dir_forwarded (no api/bundle call with option values omits the data directory). Validation: 300+ '
     'generated command lines per run covering every data-returning sub-command (stdout and -o, non-canonical spellings, invalid names/formats/roles/families), '
-    'output = API value + newline. Partial: argparse and file I/O are trusted; handlers other than get-basis/get-refs are validated, not modelled.',
+    'output = API value + newline, the data-dir sub-commands also against a generated directory passed with -d (other names, notes, families, auxiliaries than the store). Partial: argparse and file I/O are trusted; the formatting done inside get-info / get-versions / list-* is validated, not modelled.',
     BASE_NOTE + 'argparse.', '6/C16')
 
 CHECKS['C10'] = (
